@@ -7,7 +7,7 @@
    The model describes the code WITH repo_patches/C10-fix.patch. *)
 From Coq Require Import ZArith NArith List Bool Sorted Lia.
 Import ListNotations.
-From Verif Require Import Lib.Corr Lib.Storegw_Str Gen.C10 Model.C10 Proofs.C10 Proofs.C10_merge Proofs.C10_select Proofs.C10_part Proofs.C10_lazy Proofs.C10_cache.
+From Verif Require Import Lib.Corr Lib.Storegw_Str Gen.C10 Model.C10 Proofs.C10 Proofs.C10_merge Proofs.C10_select Proofs.C10_part Proofs.C10_lazy Proofs.C10_cache Proofs.C10_heur.
 Open Scope Z_scope.
 
 (* Time filter: for every series whose chunks are ordered by start time (the TSDB index
@@ -82,6 +82,30 @@ Theorem C10_lazy_select_eq : forall idx ms lazy,
   select_with idx ms lazy = select idx ms.
 Proof. exact select_with_eq. Qed.
 Print Assumptions C10_lazy_select_eq.
+
+(* The lazy-marking heuristic (optimizePostingsFetchByDownloadedBytes), for EVERY estimated
+   series size, every match ratio and key ratio (any rationals), every cardinality: among
+   groups with distinct names it never marks lazy the first group (in cardinality order)
+   that has add keys, so a group with add keys is always fetched. *)
+Theorem C10_lazy_marking_keeps_add_group : forall idx sz mn md kn kd gs names,
+  lazy_marking idx sz mn md kn kd gs = Some names ->
+  NoDup (map g_name gs) ->
+  (forall g, In g gs -> g_all g = false -> g_add g <> []) ->
+  (exists g, In g gs /\ g_all g = false) ->
+  exists g, In g gs /\ g_add g <> [] /\ smem (g_name g) names = false.
+Proof. exact lazy_marking_ok. Qed.
+Print Assumptions C10_lazy_marking_keeps_add_group.
+
+(* ... hence, for the marking the real code makes for a query (model [real_marking], compared
+   with the marking observed in ExpandedPostings on every generated case), the lazily
+   evaluated selection is exactly the eager selection. *)
+Theorem C10_lazy_heuristic_sound : forall idx ms sz mn md kn kd gs names,
+  ms <> [] -> Forall coherent ms -> consistent ms -> wf_index idx ->
+  matchers_to_groups idx ms = Some gs ->
+  real_marking idx sz mn md kn kd gs = Some names ->
+  select_with idx ms (fun n => smem n names) = select idx ms.
+Proof. exact real_marking_sound. Qed.
+Print Assumptions C10_lazy_heuristic_sound.
 
 (* Gap-based partitioner (chunk and series range reads): for every list of ranges sorted by
    start and every max gap, the partition terminates within its fuel, the parts' element
@@ -198,3 +222,14 @@ Example C10_cache_nonvacuous :
   /\ List.length (finish [] (select ex_idx [ex_m3]) 0 10) = 1%nat
   /\ List.length (finish [] (select ex_idx [ex_m3]) 0 1000) = 2%nat.
 Proof. split; [vm_compute; reflexivity|]. split; vm_compute; reflexivity. Qed.
+
+(* the heuristic on the example index: est. series size 1, match ratio 1/2: the bigger group
+   (__name__, 3 postings) is marked lazy, the group of "a" is fetched *)
+Definition ex_m4 : matcher :=
+  {| m_type := MNeq; m_name := s_ "__name__"; m_value := []; m_sets := [];
+     m_fun := fun v => negb (str_eqb v []) |}.
+Example C10_heuristic_nonvacuous :
+  exists gs, matchers_to_groups ex_idx [ex_m1; ex_m4] = Some gs
+    /\ real_marking ex_idx 1 1 2 0 1 gs = Some [s_ "__name__"]
+    /\ select_with ex_idx [ex_m1; ex_m4] (fun n => smem n [s_ "__name__"]) = [nth 0 ex_idx ([], [])].
+Proof. eexists. split; [vm_compute; reflexivity|]. split; vm_compute; reflexivity. Qed.
